@@ -45,6 +45,15 @@ def Fl(n, e, neg=False):
     return un("-", lit) if neg else lit
 
 
+def FlOpq(x):
+    """positive finite float literal outside the exact sub-domain, carried by its bits; written as Python's shortest
+    round-trip decimal (must be plain digits.digits: 1e-4 <= x < 1e16)"""
+    import struct
+    txt = repr(float(x))
+    assert x > 0 and "e" not in txt and "." in txt and float(txt) == x, txt
+    return {"t": "float", "v": {"c": "opq", "neg": False, "n": 0, "e": 0, "bits": struct.pack(">d", float(x)).hex()}}
+
+
 def N(n):
     return {"t": "name", "n": n}
 
@@ -124,6 +133,9 @@ def lst(es):
 
 def fstr(v):
     """exact decimal expansion of the dyadic float n/2^e (always with a '.')"""
+    if v.get("c") == "opq":
+        import struct
+        return repr(struct.unpack(">d", bytes.fromhex(v["bits"]))[0])
     x = Fraction(v["n"], 2 ** v["e"])
     ip = x.numerator // x.denominator
     fp = x - ip
